@@ -204,6 +204,35 @@ def twice_changed_history():
     return specs, evos
 
 
+def together_with_relation_history():
+    """a unique_together entry that contains a foreign key (field name and column differ) set in one version and
+    replaced in the next: the index of the old entry goes wherever the upgrade started"""
+    def fld(name, t, related=None, **attrs):
+        return {'name': name, 'type': t, 'attrs': attrs, 'related': related}
+
+    def mdl(name, fields):
+        return {'name': name, 'table': 'vapp_%s' % name.lower(), 'unique_together': [], 'index_together': [],
+                'indexes': [], 'constraints': [], 'fields': [fld('id', 'AutoField', primary_key=True)] + fields}
+    spec0 = {'apps': [{'id': 'vapp', 'models': [
+        mdl('Author', [fld('name', 'CharField', max_length=10, null=True)]),
+        mdl('Book', [fld('title', 'CharField', max_length=20, null=True), fld('isbn', 'IntegerField', null=True),
+                     fld('author', 'ForeignKey', 'vapp.Author', null=True),
+                     fld('code', 'IntegerField', null=True, db_column='code_col')])]}]}
+    cm = lambda val: {'t': 'ChangeMeta', 'model': 'Book', 'prop': 'unique_together', 'py_value': val}
+    evos = [[{'t': 'AddField', 'model': 'Author', 'field': 'born', 'ftype': 'IntegerField', 'initial': None,
+              'attrs': [['null', 'true']]}],
+            [cm([('title', 'author'), ('isbn', 'code')])],
+            [cm([('title', 'isbn')])]]
+    sig = dbrig.sig_from_models(dbrig.build_models(spec0))
+    specs = [spec0]
+    for e in evos:
+        sig = sigs.real_simulate(sig, 'vapp', [sigs.real_mutation(m) for m in e])[1]
+        sp = dbrig.spec_from_sig(sig)
+        sp['apps'] = [a for a in sp['apps'] if a['id'] == 'vapp']
+        specs.append(sp)
+    return specs, evos
+
+
 def new_model_history():
     """a model that first appears in a later version (with a foreign key and an indexed column: its indexes are
     deferred SQL of the model creation), next to ordinary evolutions of an older model"""
@@ -295,7 +324,8 @@ def muts_of(e):
     return [m for _, _, ms in parts(0, e) for m in ms]
 
 
-SCRIPTED = [scripted_history, two_app_history, signature_only_history, new_model_history, readd_history, rename_model_history, reuse_after_rename_history, twice_changed_history]
+SCRIPTED = [scripted_history, two_app_history, signature_only_history, new_model_history, readd_history, rename_model_history, reuse_after_rename_history, twice_changed_history,
+            together_with_relation_history]
 
 
 def install(specs, evos, version):
@@ -360,6 +390,13 @@ def second_run():
             # a further run that cannot even be prepared is certainly not "nothing required"
             return 'raises %s: %s' % (type(e).__name__, str(e)[:80]), False, tr.write_statements()
     return required, diff_empty, tr.write_statements()
+
+
+def deleted_target_needed(err, seg):
+    import re
+    m = re.search(r'model signature for "vapp\.(\w+)"', err or '')
+    return bool(m) and any(x['t'] == 'DeleteModel' and x['model'] == m.group(1) for x in seg) and \
+        sum(1 for x in seg if x['t'] in ('DeleteModel', 'DeleteField')) >= 2
 
 
 def opt_explains(ctx, spec, seg):
@@ -428,7 +465,7 @@ def run(ctx):
     ctx.rule = ('linear histories V0..Vn (n<=3 quick, <=4 thorough) of one app (plus a two-app history whose apps reuse evolution labels), each step a generated evolution of 1-3 '
                 'mutations in SEQUENCE; for every start point i: stepwise and direct upgrades with identical initial rows, '
                 'and a fresh install of Vn; front ends Evolver.evolve, `evolve --execute`, `migrate`; non-trivial = n>=2')
-    nh = 25 if quick else 150
+    nh = (len(SCRIPTED) * 3 + 12) if quick else 150 + len(SCRIPTED) * 3
     done = tries = 0
     opt_w = None
     noop_w = None
@@ -494,6 +531,10 @@ def run(ctx):
                             any(opt_explains(ctx, specs[k], muts_of(evos[k])) for k in range(i, n)):
                         opt_w = opt_w or r
                     elif 'no such index' in (err or '') or 'DatabaseStateError' in (err or ''):
+                        ctx.count('path_failed_known_C01')
+                    elif deleted_target_needed(err, seg):
+                        # findings F35 (C01) / F42 (C15): a model is deleted in the run in which another mutation still
+                        # needs its signature to build the model that refers to it
                         ctx.count('path_failed_known_C01')
                     else:
                         ctx.fail(None, 'upgrading from V%d (%s, %s) fails: %s' % (i, path, how, err), r)
